@@ -26,6 +26,7 @@ namespace CKR
 @[reducible] def KEY_HANDLE_INVALID : RV := 0x60
 @[reducible] def KEY_SIZE_RANGE : RV := 0x62
 @[reducible] def KEY_TYPE_INCONSISTENT : RV := 0x63
+@[reducible] def KEY_INDIGESTIBLE : RV := 0x67
 @[reducible] def KEY_FUNCTION_NOT_PERMITTED : RV := 0x68
 @[reducible] def KEY_NOT_WRAPPABLE : RV := 0x69
 @[reducible] def KEY_UNEXTRACTABLE : RV := 0x6A
